@@ -37,14 +37,14 @@ theorem c09_schemas :
     ∧ Blue.Generated.sstTrailerBytes = 8 := by decide
 
 /-- `log_to_builder` / `log_to_setsum` hand a reader error on (`?`) — the model describes the code
-    after the repair of D-3 (`fixes/d3-log-to-builder-unwrap.diff`); on the code as found, which
+    after the repair of D-3 (`/repo commit 3de862f`); on the code as found, which
     unwraps, this obligation fails -/
 theorem c09_replay_propagates :
     Blue.Damage.replayPropagatesErrors = decide (Blue.Generated.logReplayUnwraps = 0) := by decide
 
 /-- the non-ASCII check of `ManifestIterator::next` poisons the iterator like every other error
     (`Item.notAscii` ends `iterate`) — the model describes the code after the repair
-    `fixes/mani-nonascii-poisons.diff`; on the code as found (`return Some(Err(..))`, modelled by
+    `/repo commit ef4f524`; on the code as found (`return Some(Err(..))`, modelled by
     `iterateAsFound`) the extracted constant is 0 and this obligation fails -/
 theorem c09_mani_non_ascii_poisons : Blue.Generated.maniNonAsciiPoisons = 1 := by decide
 
